@@ -174,6 +174,82 @@ CLAIMED = {
         note=BASE_NOTE + "As C05.",
         technique='Lean 4 proof (projection/closure for all inputs) + differential correspondence',
         design_ref='DESIGN.md 5/C14, 12'),
+    'C03': dict(
+        category='proof',
+        text=("Model/Table.lean follows pdb2sqlcore.get step by step (column/key validation, no_ prefix, scalar vs list, rowID +1/-1 shifts, IN lists joined by AND, SQLite comparison affinity, flattening, the chunked "
+              "path, per-model dispatch, tablename) with limits from the translated constants; Spec/C03.lean is the row-by-row evaluator of the property. Theorems (Props/C03.lean) for every table and every conjunction: "
+              "Model.get = filter of the enumerated table by 'every condition holds', projected on the requested attributes in the requested order, flattened for one attribute (get_eq_filter, get_eq_spec, selected_exact, "
+              "get_nodup, get_in_input_order, get_columns_in_requested_order); rowID is the position as attribute and as condition (rowID_means_position, rowID_as_condition); unknown attribute/condition names are rejected "
+              "(unknown_column_rejected, unknown_key_rejected); get_residues/get_chains (get_residues_eq, get_chains_eq). Correspondence: tables of 0-40 rows from a small value pool, every subset of a condition pool up to "
+              "size 4 (bounded-exhaustive) + random conjunctions over every attribute type, scalars/lists, present/absent values, string forms of numbers, negations, every ordered column list up to 4 and '*'."),
+        note=BASE_NOTE + "SQLite's comparison/storage affinity = Model.sqlEq/storeVal is sampled, not proved; duplicate/case-variant column spellings are outside the quantifier (model-only).",
+        technique='Lean 4 refinement proof (modelled get = row-by-row spec for all tables and conjunctions) + bounded-exhaustive differential correspondence',
+        design_ref='DESIGN.md 5/C03, 12'),
+    'C04': dict(
+        category='proof',
+        text=("Model.step follows update / update_column / update_xyz / add_column / _fix_chainID (validate, get('rowID'), shape checks before anything is written, sequential UPDATE ... WHERE rowID=?). Theorems (Props/C04.lean): "
+              "update writes vals[i][j] to cell (i-th selected row, j-th attribute) and nothing else (update_spec, update_selection_is_spec, ith_value_on_ith_selected, unselected_unchanged); any shape mismatch - empty values, a "
+              "value row of the wrong length incl. ragged rows, a row count different from the selection - leaves the state unchanged (update_shape_error); for ALL histories tables, names, row counts and order are kept and "
+              "every cell not addressed by some step is unchanged (frame, update_frame_step - induction over the operation list); add_column_spec, stored_equal_in_value; chain relabelling equals the rank-of-sorted-IDs spec and "
+              "touches nothing else (fix_chainID_spec, fix_chainID_frame). Correspondence: histories of 1-12 operations with get('*') and get_colnames() after every step; value carriers list / tuple / float64, float32, int64, "
+              "int32 arrays / NumPy scalars / str arrays (read back equal in value); mismatching shapes compared before/after."),
+        note=BASE_NOTE + "Carrier independence is a harness dimension (sqlite3 binding of each carrier is sampled); update_column follows zip semantics (accepted behaviour, relied upon by the repository's own tests); updating the rowID column is outside the quantifier.",
+        technique='Lean 4 proof over all histories (frame invariant by induction) of a list-of-records model + differential correspondence on operation sequences',
+        design_ref='DESIGN.md 5/C04, 12'),
+    'C17': dict(
+        category='proof',
+        text=("The same Model.get including the chunked path of the (repaired) source with its recursion bounded by fuel that is proved never to run out. Theorems (Props/C17.lean): for EVERY list length, positive or negated, "
+              "with or without duplicates, on any table of a multi-table database and for multi-model files, Model.get = the Spec answer, or the documented tooManyVars error exactly when the conditions together exceed the "
+              "limit (get_any_length, get_any_length_rows); the chunking lemma - union (intersection for negated) of per-chunk selections = selection of the whole list (chunking); the addressed table is respected "
+              "(table_name_respected); update_any_length; limits_are_950_999 pins the translated constants. Correspondence: 1-3 structures up to 4000 atoms, lengths {0,1,2,949,950,951,998,999,1000,1899,1900,1901,2851}+random, "
+              "positive/negated, duplicates within/across chunks, ascending/descending/shuffled, alone and combined (incl. the combined-limit error), every table name, get/update/get_all, under a lowered recursion limit."),
+        note=BASE_NOTE + "SQLite's variable limit itself is not exercised (the library's own 950/999 limits are).",
+        technique='Lean 4 proof for all list lengths (chunking lemma, fuel sufficiency) + differential correspondence at and around the limits',
+        design_ref='DESIGN.md 5/C17, 12'),
+    'C15': dict(
+        category='proof',
+        text=("Model/TableWorld.lean: a world is a list of private tables; sub-selection, interface(db) and many2sql([db,...]) derive roundtrip(selected rows) where the text round trip is a parameter (C02 proves its properties). "
+              "Theorems (Props/C15.lean): the new object equals the round trip of the selected rows of the source AT THAT MOMENT, all earlier modifications included; an empty selection raises and creates nothing "
+              "(export_is_selection, snapshot); every later step on one object leaves every other object unchanged, for all histories (independence_step, independence, modify_is_own_step, derived_and_source_independent). "
+              "What makes independence true of the code - one private SQLite connection per object - is what the correspondence exercises: histories of 5-25 steps over a growing family of <= 6 objects interleaving "
+              "modifications and the three derivations, get('*') of EVERY live object compared with its model table after EVERY step."),
+        note=BASE_NOTE + "Independence holds in the model by construction; its truth for the code rests on the correspondence histories.",
+        technique='Lean 4 proof by induction over histories of a world-of-tables model + differential correspondence after every step',
+        design_ref='DESIGN.md 5/C15, 12'),
+    'C19': dict(
+        category='proof',
+        text=("Model/TableJoin.lean: INNER JOIN ... ON every pair of tables agreeing on every match key = nested-loop join; per-table slicing of the joined tuple. Theorems (Props/C19.lean): every joined row carries the same "
+              "key in all components (join_aligned); component k of a joined row is a row of structure k (own_values); a key is in the output iff it occurs in every structure (join_sound_complete); with unique keys each common "
+              "key appears exactly once (join_once); intersection_is_sliced_join, per_table_query; default_match_is_the_source's pins the translated default. Correspondence: 2-4 structures from a common parent by independent "
+              "deletions, coordinate changes, point mutations and record permutations x EVERY match-key subset (through both get_intersection and intersect(match=...)) x attribute lists, compared as sorted lists of aligned "
+              "tuples (SQL row order is never relied upon); every table of the intersected database read back."),
+        note=BASE_NOTE + "INNER JOIN = nested loop is sampled; intersect() itself (re-export of the joined rows) is compared through correspondence, without a theorem of its own.",
+        technique='Lean 4 proof over a nested-loop join model + differential correspondence for every match-key subset',
+        design_ref='DESIGN.md 5/C19, 12'),
+    'C07': dict(
+        category='proof',
+        text=("Model/Rmsd*.lean follow the four RMSD routines' data flow (raw-column readers on List Char, zones, check_residues, in-zone/not-in-zone split, identity-keyed intersections, key-ordered coordinates, first-match "
+              "lookup, long/short chain rule) and return the outcome class and the ordered pair lists handed to the kernel; the value is the radicand through Model/Superpose. Theorems (Props/C07.lean), under decidable "
+              "Consistent / RawAgrees hypotheses checked on every case: each routine hands the kernel a permutation of the definition's pairs - common backbone atoms of reference interface residues (i-RMSD), of the longer / "
+              "shorter chain of the reference (L-RMSD) - or raises exactly when the definition's list is empty or enforcement demands it (irmsd_pairs_fast/_sql, lrmsd_pairs_fast/_sql); the msd depends only on the multiset of "
+              "pairs (rmsd_perm_invariant); every reordering of either file gives the same multiset or an explicit error (paired_by_identity_not_position); missing atoms are left out / reported when enforced; the reported "
+              "radicand is the minimum over all rigid motions (centroid_optimal_translation, irmsd_is_min, lrmsd_is_fit_then_eval) with the kernel hypothesis discharged from C06 (kernel_optimal_from_C06); identical "
+              "structures score 0 (identical_scores_zero, L-RMSD partial without rank >= 2). Correspondence: generated complexes and decoys (jitter, rigid moves, deletions, interleaving, negative/4-digit numbering), cutoffs 5-12, "
+              "both routines x both methods x enforcement; values recomputed from the model's and the Spec's pairs with an independent optimiser (0.0005 + 1e-9)."),
+        note=BASE_NOTE + "Float evaluation of the kernel and round(.,3) sampled; RawAgrees is a checked hypothesis; the check=False positional path is modelled and sampled, not claimed.",
+        technique='Lean 4 proof that each route pairs exactly the definition\'s atoms (multiset equality) + minimality via C06 + differential correspondence with an independent optimiser',
+        design_ref='DESIGN.md 5/C07, 12'),
+    'C11': dict(
+        category='proof',
+        text=("Metamorphic theorems about the models and specs of C05/C07/C08 (Props/C11.lean): a rigid motion of the decoy (or of both structures) moves the pair lists pointwise and leaves the minimum and fit-then-eval "
+              "values unchanged (rigid_invariant_pairs, rigid_invariant_value, rigid_invariant_models); contacts, Fnat and the clash count depend on distances only (isometry_invariant_contacts); the readers' slices avoid "
+              "columns 7-11, 55-66, 77-78 and no model output changes when only serial, occupancy, B-factor or element change (ignores_serial_occ_temp_element_text, ignores_serial_occ_temp_element, "
+              "ignored_columns_are_the_documented_ones); adding a constant to all residue numbers of both structures leaves pairs, Fnat and clashes unchanged (renumber_invariant); added hydrogens are ignored by Fnat and "
+              "clashes (hydrogens_ignored); any reordering gives the same value or an explicit error (permutation_same_or_error). Correspondence on the real routines: the 24 lattice rotations + millesimal translations exactly "
+              "(identical values for all scores incl. DockQ/CAPRI), arbitrary motions within 0.002, column edits, renumbering incl. 4-digit and negative numbers, added hydrogens, four permutation classes x both enforcement settings."),
+        note=BASE_NOTE + "Pairs whose distances are within 0.01 A of a cutoff are regenerated and counted; DockQ/CAPRI invariance is harness-side.",
+        technique='Lean 4 metamorphic theorems over the score models + metamorphic runs of the real routines (exact lattice motions)',
+        design_ref='DESIGN.md 5/C11, 12'),
 }
 
 checks = []
@@ -207,7 +283,7 @@ manifest = {
          'serves_properties': sorted(CLAIMED),
          'kind_free_text': 'machine-checked proof in Lean 4 about a model regenerated from the source (py/translate.py) or hand-written and tied by a differential correspondence run'}],
     'checks': checks,
-    'not_applicable': [{'property_id': p, 'reason': 'check under construction in this round; not claimed until its model, theorems and correspondence run exist'}
+    'not_applicable': [{'property_id': p, 'reason': 'not claimed'}
                        for p in ids if p not in CLAIMED],
     'notes': 'See DESIGN.md. Fix commits made in /repo are listed in known_findings.json ("fixed:" entries).',
 }
